@@ -25,6 +25,8 @@ type c10TagVars struct {
 	key      map[types.Object]bool
 	dispatch map[types.Object]string // var -> tag name
 	order    []types.Object          // key vars in source order
+	pseudo   map[ast.Expr]string     // switch tag `X.Tag.Get("t")` -> tag name
+	keyFunc  bool                    // the function returns the key of a struct field
 }
 
 func c10TagGet(info *types.Info, e ast.Expr) (string, bool) {
@@ -99,7 +101,42 @@ func c10CollectTagVars(f *kit.Func) *c10TagVars {
 		}
 		return true
 	})
+	tv.pseudo = map[ast.Expr]string{}
+	ast.Inspect(f.Body, func(n ast.Node) bool {
+		if sw, ok := n.(*ast.SwitchStmt); ok && sw.Tag != nil {
+			if t, ok := c10TagGet(info, sw.Tag); ok {
+				tv.pseudo[ast.Unparen(sw.Tag)] = t
+			}
+		}
+		return true
+	})
+	// a function returning the key of one struct field: string result, a
+	// reflect.StructField parameter, tags read inside
+	if f.Decl != nil && f.Type.Results != nil && len(f.Type.Results.List) == 1 && len(f.Type.Results.List[0].Names) <= 1 {
+		if bt, ok := info.TypeOf(f.Type.Results.List[0].Type).Underlying().(*types.Basic); ok && bt.Info()&types.IsString != 0 {
+			hasSF := false
+			for _, p := range f.Params() {
+				if kit.RType(p.Type()) == "StructField" {
+					hasSF = true
+				}
+			}
+			reads := false
+			ast.Inspect(f.Body, func(n ast.Node) bool {
+				if e, ok := n.(ast.Expr); ok {
+					if _, ok := c10TagGet(info, e); ok {
+						reads = true
+					}
+				}
+				return true
+			})
+			tv.keyFunc = hasSF && reads
+		}
+	}
 	for _, o := range seen {
+		if tv.keyFunc {
+			tv.dispatch[o] = tagOf[o] // tracked for emptiness; judged at the returns
+			continue
+		}
 		if nAssign[o] > 1 || flowsToKey[o] {
 			tv.key[o] = true
 			tv.order = append(tv.order, o)
@@ -114,6 +151,7 @@ type c10TagResult struct {
 	uses map[types.Object]map[string]bool // key var -> chains at uses
 	seqs map[string]bool                  // dispatch sequences observed
 	sub  map[string]map[string]bool       // tag -> constants its dispatch var is compared with
+	rets map[string]bool                  // key function: derivation chain at each return
 	bad  []string
 }
 
@@ -163,7 +201,7 @@ func c10EmptyTest(info *types.Info, e ast.Expr) (types.Object, bool, bool) {
 func c10RunTags(c *kit.Ctx, tv *c10TagVars) *c10TagResult {
 	f := tv.f
 	info := f.Info()
-	res := &c10TagResult{uses: map[types.Object]map[string]bool{}, seqs: map[string]bool{}, sub: map[string]map[string]bool{}}
+	res := &c10TagResult{uses: map[types.Object]map[string]bool{}, seqs: map[string]bool{}, sub: map[string]map[string]bool{}, rets: map[string]bool{}}
 	tracked := func(o types.Object) bool { return o != nil && (tv.key[o] || tv.dispatch[o] != "") }
 	use := func(n ast.Node, s kit.S, skip ast.Node) {
 		ast.Inspect(n, func(x ast.Node) bool {
@@ -180,6 +218,93 @@ func c10RunTags(c *kit.Ctx, tv *c10TagVars) *c10TagResult {
 			}
 			return true
 		})
+	}
+	testedID := func(s kit.S, id, t string) kit.S {
+		if t == "" {
+			return s
+		}
+		for _, d := range strings.Split(s.Get("tst"), ",") {
+			if d == id {
+				return s
+			}
+		}
+		sq := t
+		if cur := s.Get("sq"); cur != "" {
+			sq = cur + "," + t
+		}
+		s = s.Set("tst", s.Get("tst")+","+id).Set("sq", sq)
+		res.seqs[sq] = true
+		return s
+	}
+	// tested appends a dispatch variable's tag to the precedence order the
+	// first time the variable is tested for emptiness in the current round.
+	tested := func(s kit.S, o types.Object) kit.S { return testedID(s, kit.VarID(o), tv.dispatch[o]) }
+	// newRound registers a dispatch variable (or switch tag) that has just been
+	// given its tag value; one that is given it again starts the next struct field
+	newRound := func(s kit.S, id string) kit.S {
+		dvs := strings.Split(s.Get("dvs"), ",")
+		restart := s.Get("dvs") == ""
+		for _, d := range dvs {
+			if d == id {
+				restart = true
+			}
+		}
+		if restart {
+			for _, d := range dvs {
+				if d != "" {
+					s = s.Del("em:" + d)
+				}
+			}
+			s = s.Set("dvs", id).Del("sq").Del("tst").Del("ks")
+		} else {
+			s = s.Set("dvs", s.Get("dvs")+","+id)
+		}
+		return s.Del("em:" + id)
+	}
+	pseudoID := func(e ast.Expr) string { return fmt.Sprintf("sw@%d", ast.Unparen(e).Pos()) }
+	elemOf := func(e ast.Expr) string {
+		if t, ok := c10TagGet(info, e); ok {
+			return "tag:" + t
+		}
+		if q, ok := c10NameFn(info, e); ok {
+			return "fn:" + q
+		}
+		if cs, ok := kit.ConstString(info, e); ok {
+			return fmt.Sprintf("const:%q", cs)
+		}
+		return "other:" + f.Str(e)
+	}
+	// retChain: what a key function returns on this path
+	retChain := func(s kit.S, e ast.Expr) string {
+		var chain []string
+		var last string
+		target := ""
+		if o := kit.ObjOf(info, e); o != nil && tv.dispatch[o] != "" {
+			target = kit.VarID(o)
+		}
+		for _, ent := range strings.Split(s.Get("ks"), ";") {
+			if ent == "" {
+				continue
+			}
+			j := strings.IndexByte(ent, '>')
+			id, el := ent[:j], ent[j+1:]
+			if id == target {
+				last = el
+				continue
+			}
+			switch s.Get("em:" + id) {
+			case "T":
+				chain = append(chain, el)
+			case "F":
+				chain = append(chain, "!nonempty-ignored("+el+")")
+			default:
+				chain = append(chain, "!untested("+el+")")
+			}
+		}
+		if target == "" {
+			last = elemOf(e)
+		}
+		return strings.Join(append(chain, last), "|")
 	}
 	assign := func(s kit.S, as *ast.AssignStmt) kit.S {
 		if len(as.Lhs) != len(as.Rhs) {
@@ -220,52 +345,24 @@ func c10RunTags(c *kit.Ctx, tv *c10TagVars) *c10TagResult {
 				s = s.Set("ch:"+id, cur).Del("em:" + id)
 				continue
 			}
-			// dispatch variable: a variable assigned again starts a new
-			// round (next struct field)
-			_ = elem
-			dvs := strings.Split(s.Get("dvs"), ",")
-			restart := s.Get("dvs") == ""
-			for _, d := range dvs {
-				if d == id {
-					restart = true
-				}
-			}
-			if restart {
-				for _, d := range dvs {
-					if d != "" {
-						s = s.Del("em:" + d)
-					}
-				}
-				s = s.Set("dvs", id).Del("sq").Del("tst")
-			} else {
-				s = s.Set("dvs", s.Get("dvs")+","+id)
-			}
-			s = s.Del("em:" + id)
-		}
-		return s
-	}
-	// tested appends a dispatch variable's tag to the precedence order the
-	// first time the variable is tested for emptiness in the current round.
-	tested := func(s kit.S, o types.Object) kit.S {
-		t := tv.dispatch[o]
-		if t == "" {
-			return s
-		}
-		id := kit.VarID(o)
-		for _, d := range strings.Split(s.Get("tst"), ",") {
-			if d == id {
-				return s
+			// dispatch variable
+			s = newRound(s, id)
+			if tv.keyFunc {
+				s = s.Set("ks", s.Get("ks")+";"+id+">"+elem)
 			}
 		}
-		sq := t
-		if cur := s.Get("sq"); cur != "" {
-			sq = cur + "," + t
-		}
-		s = s.Set("tst", s.Get("tst")+","+id).Set("sq", sq)
-		res.seqs[sq] = true
 		return s
 	}
 	node := func(n ast.Node, s kit.S) []kit.S {
+		if e, ok := n.(ast.Expr); ok {
+			if _, isTag := tv.pseudo[ast.Unparen(e)]; isTag {
+				return []kit.S{newRound(s, pseudoID(e))}
+			}
+		}
+		if r, ok := n.(*ast.ReturnStmt); ok && tv.keyFunc && len(r.Results) == 1 {
+			res.rets[retChain(s, r.Results[0])] = true
+			return []kit.S{s}
+		}
 		switch x := n.(type) {
 		case *ast.AssignStmt:
 			for _, r := range x.Rhs {
@@ -353,11 +450,16 @@ func c10RunTags(c *kit.Ctx, tv *c10TagVars) *c10TagResult {
 	}
 	other := func(br kit.Branch, s kit.S) (t, fl []kit.S) {
 		if br.Kind == kit.BrCase && br.Tag != nil {
+			id, tag := "", ""
 			if o := kit.ObjOf(info, br.Tag); tracked(o) {
-				if cs, ok := kit.ConstString(info, br.Case); ok && cs == "" {
-					id := kit.VarID(o)
-					s = tested(s, o)
-					cur := s.Get("em:" + id)
+				id, tag = kit.VarID(o), tv.dispatch[o]
+			} else if t, ok := tv.pseudo[ast.Unparen(br.Tag)]; ok {
+				id, tag = pseudoID(br.Tag), t
+			}
+			if cs, ok := kit.ConstString(info, br.Case); ok && id != "" {
+				s = testedID(s, id, tag)
+				cur := s.Get("em:" + id)
+				if cs == "" {
 					if cur != "F" {
 						t = []kit.S{s.Set("em:"+id, "T")}
 					}
@@ -366,6 +468,16 @@ func c10RunTags(c *kit.Ctx, tv *c10TagVars) *c10TagResult {
 					}
 					return
 				}
+				if tag != "" {
+					if res.sub[tag] == nil {
+						res.sub[tag] = map[string]bool{}
+					}
+					res.sub[tag][cs] = true
+				}
+				if cur != "T" {
+					t = []kit.S{s.Set("em:"+id, "F")}
+				}
+				return t, []kit.S{s}
 			}
 		}
 		return []kit.S{s}, []kit.S{s}
@@ -406,7 +518,7 @@ func c10TagRules(c *kit.Ctx, m *c10Model) {
 			continue
 		}
 		tv := c10CollectTagVars(f)
-		if len(tv.key) == 0 && len(tv.dispatch) == 0 {
+		if len(tv.key) == 0 && len(tv.dispatch) == 0 && len(tv.pseudo) == 0 && !tv.keyFunc {
 			continue
 		}
 		c.Analysed(f)
@@ -423,44 +535,15 @@ func c10TagRules(c *kit.Ctx, m *c10Model) {
 			o2 := r2.Ob(f, nil, fmt.Sprintf("key derivation #%d (%s)", i+1, o.Name()),
 				"the key is the point tag, else the edgepoint tag, else the camel-cased field name")
 			o2.Site = c.P.Pos(o.Pos())
-			var chains [][]string
-			for ch := range res.uses[o] {
-				chains = append(chains, strings.Split(ch, "|"))
-			}
-			sort.Slice(chains, func(a, b int) bool { return len(chains[a]) > len(chains[b]) })
-			if len(chains) == 0 {
-				o2.Undecided("no use of the key variable reached")
-				continue
-			}
-			full := chains[0]
-			okPrefix := true
-			for _, ch := range chains[1:] {
-				if !c10Prefix(ch, full) {
-					okPrefix = false
-					o2.Violation("the key is derived as %s on one path and as %s on another", strings.Join(ch, " → "), strings.Join(full, " → "))
-				}
-			}
-			if !okPrefix {
-				continue
-			}
-			desc := strings.Join(full, " → ")
-			switch {
-			case len(full) < 1 || full[0] != "tag:point":
-				o2.Violation("derivation %s does not start with the point tag", desc)
-			case len(full) < 2 || full[1] != "tag:edgepoint":
-				o2.Violation("derivation %s lacks the edgepoint-tag fallback in second place: a nested field tagged only `edgepoint` gets a key the other sites do not use", desc)
-			case len(full) < 3 || !strings.HasPrefix(full[2], "fn:"):
-				o2.Violation("derivation %s lacks the camel-cased field name as last fallback", desc)
-			case len(full) > 3:
-				o2.Violation("derivation %s has extra steps after the field-name fallback", desc)
-			default:
-				fnSeen = append(fnSeen, full[2])
-				if full[2] != fnSeen[0] {
-					o2.Violation("field-name fallback uses %s here but %s at the other sites", full[2], fnSeen[0])
-				} else {
-					o2.OK("%s on every path (%d paths to uses)", desc, len(chains))
-				}
-			}
+			c10JudgeChains(o2, res.uses[o], &fnSeen, "use")
+		}
+		if tv.keyFunc {
+			nsites++
+			helpers[f] = nil
+			o2 := r2.Ob(f, nil, "key derivation (returned by "+f.Name+")",
+				"the key is the point tag, else the edgepoint tag, else the camel-cased field name")
+			c10JudgeChains(o2, res.rets, &fnSeen, "return")
+			tv.dispatch = map[types.Object]string{} // not a dispatcher
 		}
 		if _, isHelper := helpers[f]; isHelper {
 			for _, ob := range r2.Obs {
@@ -470,7 +553,7 @@ func c10TagRules(c *kit.Ctx, m *c10Model) {
 			}
 		}
 		// ---- R4 dispatch sequence of this function
-		if len(tv.dispatch) > 0 {
+		if len(tv.dispatch) > 0 || len(tv.pseudo) > 0 {
 			var seqs [][]string
 			for s := range res.seqs {
 				seqs = append(seqs, strings.Split(s, ","))
@@ -724,4 +807,47 @@ func c10IsKeyish(t types.Type) bool {
 		return isStr(u.Elem()) || isStr(u.Key())
 	}
 	return false
+}
+
+// c10JudgeChains decides one derivation site from the chains seen at its uses / returns.
+func c10JudgeChains(o2 *kit.Ob, seen map[string]bool, fnSeen *[]string, what string) {
+	var chains [][]string
+	for ch := range seen {
+		chains = append(chains, strings.Split(ch, "|"))
+	}
+	sort.Slice(chains, func(a, b int) bool {
+		if len(chains[a]) != len(chains[b]) {
+			return len(chains[a]) > len(chains[b])
+		}
+		return strings.Join(chains[a], "|") < strings.Join(chains[b], "|")
+	})
+	if len(chains) == 0 {
+		o2.Undecided("no %s of the key reached", what)
+		return
+	}
+	full := chains[0]
+	for _, ch := range chains[1:] {
+		if !c10Prefix(ch, full) {
+			o2.Violation("the key is derived as %s on one path and as %s on another", strings.Join(ch, " → "), strings.Join(full, " → "))
+			return
+		}
+	}
+	desc := strings.Join(full, " → ")
+	switch {
+	case len(full) < 1 || full[0] != "tag:point":
+		o2.Violation("derivation %s does not start with the point tag", desc)
+	case len(full) < 2 || full[1] != "tag:edgepoint":
+		o2.Violation("derivation %s lacks the edgepoint-tag fallback in second place: a nested field tagged only `edgepoint` gets a key the other sites do not use", desc)
+	case len(full) < 3 || !strings.HasPrefix(full[2], "fn:"):
+		o2.Violation("derivation %s lacks the camel-cased field name as last fallback", desc)
+	case len(full) > 3:
+		o2.Violation("derivation %s has extra steps after the field-name fallback", desc)
+	default:
+		*fnSeen = append(*fnSeen, full[2])
+		if full[2] != (*fnSeen)[0] {
+			o2.Violation("field-name fallback uses %s here but %s at the other sites", full[2], (*fnSeen)[0])
+		} else {
+			o2.OK("%s on every path (%d paths to a %s)", desc, len(chains), what)
+		}
+	}
 }
